@@ -1,4 +1,5 @@
 import MetapypeModel.Model.Prune
+import MetapypeModel.Lemmas.PruneAccount
 /-
   C15 — prune removes exactly the offending subtrees and nothing else.
   For every lexer, every table, every tree, both modes; induction on trees.
@@ -264,5 +265,115 @@ end
 theorem C15_listed_are_nodes (L : Lexer) (T : Tables) (strict : Bool) (t : Tree) :
     ∀ x ∈ prunedList L T strict t, x.1 ∈ (Tree.preorder t).map Tree.id ∧ (x.2 = .invalid → strict = true) :=
   prunedList_nodes L T strict t
+
+/-! ### accounting: what leaves the tree, and why (`removedT`, Lemmas/PruneAccount.lean) -/
+
+/-- every node of the original is kept or lies in exactly one removed subtree: the ids of the original are, as a multiset,
+    the ids of the pruned tree together with the ids of the removed subtrees (each taken as it was when it was removed) -/
+theorem C15_accounting (L : Lexer) (T : Tables) (strict : Bool) (t : Tree) :
+    List.Perm t.ids (keptIds (pruneT L T strict t).1 ++ removedIds (removedT L T strict t)) := by
+  rw [List.perm_iff_count]
+  intro x
+  rw [List.count_append]
+  exact count_account L T strict x t
+
+/-- the list `prune` returns is, up to order, the list of the removed subtree roots with the reason each was removed for:
+    one entry per removed subtree, none for anything else -/
+theorem C15_list_is_removed (L : Lexer) (T : Tables) (strict : Bool) (t : Tree) :
+    List.Perm (prunedList L T strict t) ((removedT L T strict t).map entryOf) := by
+  rw [List.perm_iff_count]
+  intro x
+  exact count_list L T strict x t
+
+/-- what makes a removed subtree offending, relative to the tree that was pruned -/
+structure Offends (L : Lexer) (T : Tables) (strict : Bool) (inside : List Tree) (top : Option (String × List Tree)) (x : Tree × Reason) : Prop where
+  unknown : x.2 = .unknown → (T.ruleOf x.1.name).isNone = true ∧ x.1 ∈ inside
+  notAllowed : x.2 = .notAllowed →
+    (∃ pn cs, top = some (pn, cs) ∧ x.1 ∈ cs ∧ childAllowed T pn x.1.name = false) ∨
+    (∃ par ∈ inside, x.1 ∈ par.children ∧ childAllowed T par.name x.1.name = false)
+  invalid : x.2 = .invalid → strict = true ∧ collectNodeT L T x.1 ≠ [] ∧ ∃ orig ∈ inside, (pruneT L T strict orig).1 = some x.1
+
+theorem Offends.mono {L : Lexer} {T : Tables} {strict : Bool} {ins ins' : List Tree} {x : Tree × Reason}
+    (h : Offends L T strict ins none x) (hsub : ∀ y ∈ ins, y ∈ ins') (top : Option (String × List Tree)) : Offends L T strict ins' top x where
+  unknown := fun hu => ⟨(h.unknown hu).1, hsub _ (h.unknown hu).2⟩
+  notAllowed := fun hn => by
+    rcases h.notAllowed hn with ⟨pn, cs, ht, _⟩ | ⟨par, hp, hc⟩
+    · cases ht
+    · exact Or.inr ⟨par, hsub _ hp, hc⟩
+  invalid := fun hi => by
+    obtain ⟨a, b, orig, ho, hp⟩ := h.invalid hi
+    exact ⟨a, b, orig, hsub _ ho, hp⟩
+
+mutual
+theorem removedT_offends (L : Lexer) (T : Tables) (strict : Bool) : ∀ (t : Tree), ∀ x ∈ removedT L T strict t,
+    Offends L T strict (Tree.preorder t) none x
+  | .mk i n c tl p a e ns cs, x, hx => by
+    simp only [removedT] at hx
+    split at hx
+    · cases hx
+    · split at hx
+      · rename_i hk
+        simp only [List.mem_singleton] at hx; subst hx
+        exact ⟨fun _ => ⟨hk, self_mem_preorder _⟩, (fun h => by cases h), (fun h => by cases h)⟩
+      · have h := removedKids_offends L T strict n cs x hx
+        refine ⟨fun hu => ⟨(h.unknown hu).1, ?_⟩, fun hn => Or.inr ?_, fun hi => ?_⟩
+        · simp only [Tree.preorder]; exact List.mem_cons_of_mem _ (h.unknown hu).2
+        · rcases h.notAllowed hn with ⟨pn, cs', ht, hc, ha⟩ | ⟨par, hp, hc⟩
+          · simp only [Option.some.injEq, Prod.mk.injEq] at ht
+            obtain ⟨rfl, rfl⟩ := ht
+            exact ⟨.mk i n c tl p a e ns cs, self_mem_preorder _, hc, ha⟩
+          · exact ⟨par, by simp only [Tree.preorder]; exact List.mem_cons_of_mem _ hp, hc⟩
+        · obtain ⟨a', b, orig, ho, hp⟩ := h.invalid hi
+          exact ⟨a', b, orig, by simp only [Tree.preorder]; exact List.mem_cons_of_mem _ ho, hp⟩
+theorem removedKids_offends (L : Lexer) (T : Tables) (strict : Bool) (pn : String) : ∀ (cs : List Tree),
+    ∀ x ∈ removedKids L T strict pn cs, Offends L T strict (Tree.preorderL cs) (some (pn, cs)) x
+  | [], x, hx => by simp [removedKids] at hx
+  | c :: cs, x, hx => by
+    simp only [removedKids] at hx
+    have tail_sub : ∀ y ∈ Tree.preorderL cs, y ∈ Tree.preorderL (c :: cs) := by
+      intro y hy; simp only [Tree.preorderL, List.mem_append]; exact Or.inr hy
+    have head_sub : ∀ y ∈ Tree.preorder c, y ∈ Tree.preorderL (c :: cs) := by
+      intro y hy; simp only [Tree.preorderL, List.mem_append]; exact Or.inl hy
+    have from_tail : x ∈ removedKids L T strict pn cs → Offends L T strict (Tree.preorderL (c :: cs)) (some (pn, c :: cs)) x := by
+      intro hx'
+      have h := removedKids_offends L T strict pn cs x hx'
+      refine ⟨fun hu => ⟨(h.unknown hu).1, tail_sub _ (h.unknown hu).2⟩, fun hn => ?_, fun hi => ?_⟩
+      · rcases h.notAllowed hn with ⟨pn', cs', ht, hc, ha⟩ | ⟨par, hp, hc⟩
+        · simp only [Option.some.injEq, Prod.mk.injEq] at ht
+          obtain ⟨h1, h2⟩ := ht
+          subst h1; subst h2
+          exact Or.inl ⟨_, _, rfl, List.mem_cons_of_mem _ hc, ha⟩
+        · exact Or.inr ⟨par, tail_sub _ hp, hc⟩
+      · obtain ⟨a', b, orig, ho, hp⟩ := h.invalid hi
+        exact ⟨a', b, orig, tail_sub _ ho, hp⟩
+    split at hx
+    · rename_i hna
+      rcases List.mem_cons.mp hx with rfl | hx
+      · exact ⟨(fun h => by cases h), (fun _ => Or.inl ⟨pn, c :: cs, rfl, List.mem_cons_self, by simpa using hna⟩), (fun h => by cases h)⟩
+      · exact from_tail hx
+    · rcases List.mem_append.mp hx with hx | hx
+      · cases hr : (pruneT L T strict c).1 with
+        | none =>
+          rw [hr] at hx
+          exact (removedT_offends L T strict c x hx).mono head_sub _
+        | some c' =>
+          rw [hr] at hx
+          simp only at hx
+          rcases List.mem_append.mp hx with hx | hx
+          · exact (removedT_offends L T strict c x hx).mono head_sub _
+          · split at hx
+            · rename_i hs
+              simp only [List.mem_singleton] at hx; subst hx
+              simp only [Bool.and_eq_true, Bool.not_eq_true', List.isEmpty_eq_false_iff] at hs
+              exact ⟨(fun h => by cases h), (fun h => by cases h), (fun _ => ⟨hs.1, hs.2, c, head_sub _ (self_mem_preorder c), hr⟩)⟩
+            · cases hx
+      · exact from_tail hx
+end
+
+/-- nothing else is removed: every removed subtree offends — its name is unknown, or the rule of its parent (a node of the
+    tree) does not allow it, or (strict mode only) it is the pruned form of a node of the tree and fails single-node validation -/
+theorem C15_removed_offend (L : Lexer) (T : Tables) (strict : Bool) (t : Tree) :
+    ∀ x ∈ removedT L T strict t, Offends L T strict (Tree.preorder t) none x :=
+  removedT_offends L T strict t
 
 end Metapype
